@@ -6,7 +6,7 @@ class shipped by the library has.  Module level, so that instances can be pickle
 from __future__ import annotations
 
 import dataclasses as _dataclasses
-from typing import Any
+from typing import Any, ClassVar
 
 import sympy as sp
 
@@ -46,6 +46,20 @@ class DampedPhaseSpaceFactor(PhaseSpaceFactor):
 
     def evaluate(self) -> sp.Expr:
         return sp.sqrt(self.s - (self.m1 + self.m2) ** 2) * sp.exp(-self.damping * self.s)
+
+
+@unevaluated
+class WithClassVariables(sp.Expr):
+    """Class variables next to instance arguments, with and without a type hint (documented in
+    docs/usage/sympy: "Class variables ... are also supported")."""
+
+    x: Any
+    tag: str = argument(default="t", sympify=False)
+    scale: ClassVar[int] = 3
+    offset = 1
+
+    def evaluate(self) -> sp.Expr:
+        return self.scale * self.x + self.offset + len(self.tag)
 
 
 def half(x):
